@@ -1168,6 +1168,7 @@ def purge_search(ctx, shim, lines):
     it had, and the smallest cluster value survives when anything does"""
     outs = vlib.run_lines(shim, lines)
     bad = nontriv = 0
+    worst = None
     for ln, x in zip(lines, outs):
         inp = pairs_of(ln.split()[3])
         level = int(ln.split()[2])
@@ -1184,10 +1185,12 @@ def purge_search(ctx, shim, lines):
             elif min(c for _, c in got) != min(c for _, c in inp): why = "the smallest cluster value was lost"
         if why:
             bad += 1
-            if bad <= 1:
-                ctx.violation(f"hb_aat_layout_remove_deleted_glyphs on {ln.split()[3]} (level {level}) gives {x}: {why}",
-                              {"stage": "search", "stream": "morx-purge", "request": ln, "expected": want, "why": why,
-                               "observed": x[:300]})
+            if worst is None or len(ln) < len(worst[0]): worst = (ln, level, x, why, want)
+    if worst:
+        ln, level, x, why, want = worst
+        ctx.violation(f"hb_aat_layout_remove_deleted_glyphs on {ln.split()[3]} (level {level}) gives {x}: {why} ({bad} requests)",
+                      {"stage": "search", "stream": "morx-purge", "request": ln, "expected": want, "why": why,
+                       "observed": x[:300], "count": bad})
     ctx.note_search("morx-purge", len(lines), nontriv, mismatches=bad,
                     rule="glyph strings <= 10 (half of the records deleted glyphs; ascending / repeated / descending / random "
                          "clusters) x 3 levels through the purge hook: the glyph ids that come out are exactly the non-deleted "
